@@ -152,6 +152,7 @@ def judge(rows_in, res, where=""):
 
 
 _solo_memo = {}
+SOLO_KEYS = ("sorted_reactants", "mcs_results", "issue", "smiles", "boundary_atoms_products", "nearest_neighbor_products")
 
 
 def solo_search(rsmi):
@@ -162,7 +163,7 @@ def solo_search(rsmi):
         r = runner.run_once({"rows": [rsmi], "config": {"n_jobs": 1, "threshold": 0}, "sim": {"sched_seed": 0}, "tap": True})
         t = (r.get("tap_rows") or [None])[0]
         m = t.get("mcs") if isinstance(t, dict) else None
-        _solo_memo[rsmi] = {k: m.get(k) for k in ("sorted_reactants", "mcs_results", "issue")} if isinstance(m, dict) else None
+        _solo_memo[rsmi] = {k: m.get(k) for k in SOLO_KEYS} if isinstance(m, dict) else None
     return _solo_memo[rsmi]
 
 
@@ -186,7 +187,7 @@ def execute(plan):
                 solo = solo_search(inp)
                 if solo is None:
                     continue
-                got = {k: t["mcs"].get(k) for k in ("sorted_reactants", "mcs_results", "issue")}
+                got = {k: t["mcs"].get(k) for k in SOLO_KEYS}
                 if got != solo:
                     diff = [k for k in got if got[k] != solo[k]]
                     vs.append(oracles.V("C10", "search_result_differs_from_solo", ",".join(diff), "%s: in this batch the search result has %r, searched alone %r" % (
